@@ -82,7 +82,15 @@ def impl_fn(case):
         for j, y in enumerate(sl):
             m.graph.set_state(*x)
             tp[i, j] = m.transition_prob(list(y))
-    return {"T": T.tolist(), "state_list": sl.tolist(), "tp": tp.tolist()}
+    # assign=True returns the same probability and moves the model to the new state
+    assign_ok = True
+    for i, x in enumerate(sl[:4]):
+        for j, y in enumerate(sl[:4]):
+            m.graph.set_state(*x)
+            p = m.transition_prob(list(y), assign=True)
+            if abs(p - tp[i, j]) > 1e-12 or list(m.graph.get_state()) != [int(v) for v in y]:
+                assign_ok = False
+    return {"T": T.tolist(), "state_list": sl.tolist(), "tp": tp.tolist(), "assign_ok": assign_ok}
 
 
 def coq_expr(case):
@@ -102,6 +110,9 @@ def compare(case, obs, val):
         return {"observable": "transition_matrix/transition_prob", "actual": f"raised {obs[1]}: {obs[2]}",
                 "expected": "a matrix"}
     o = obs[1]
+    if not o.get("assign_ok", True):
+        return {"observable": "transition_prob(new_state, assign=True)", "actual": "different probability or state not assigned",
+                "expected": "same probability as assign=False and graph.get_state() == new_state"}
     if o["state_list"] != slm:
         return {"observable": "graph.state_list", "actual": o["state_list"], "expected": slm}
     for name, act, exp in (("transition_matrix()", o["T"], Tm), ("transition_prob(new_state)", o["tp"], tpm)):
